@@ -72,6 +72,55 @@ class Counting:
         return SystemKP(**kw)
 
 
+class RealKP(gen_kp.KPModel):
+    """k.p model with real symmetric coefficients whose callables return *float* arrays (widening: dtype of Ham)"""
+
+    def der_x(self, x, n=0):
+        return np.ascontiguousarray(super().der_x(x, n).real)
+
+
+def real_twin(m0):
+    m = RealKP(m0.coefs.real, m0.exponents, convention=m0.convention, box=m0.box, kmax=m0.kmax,
+               real_lattice=m0.real_lattice_in, recip_lattice=m0.recip_lattice_in,
+               trig=[(A.real, q, phi) for A, q, phi in m0.trig], finite_diff_dk=m0.finite_diff_dk)
+    m.sparse = m0.sparse
+    return m
+
+
+def sheared_model(rng, nb, lefthanded):
+    """non-reduced (unimodular integer combination of a generic cell) and/or left-handed reciprocal cell, given either
+    as recip_lattice or through the equivalent real_lattice"""
+    base = gen_kp.random_box(rng, "recip")["recip_lattice"]
+    M = np.eye(3, dtype=int)
+    for _ in range(int(rng.integers(1, 3))):
+        i, j = rng.choice(3, 2, replace=False)
+        E = np.eye(3, dtype=int)
+        E[i, j] = int(rng.choice([-3, -2, -1, 1, 2, 3]))
+        M = E @ M
+    R = M @ base
+    if lefthanded:
+        R[int(rng.integers(3))] *= -1
+    if rng.random() < 0.4:
+        return gen_kp.random_kp(rng, nb=nb, box="real", boxpar=dict(kmax=None, real_lattice=2 * np.pi * np.linalg.inv(R).T))
+    return gen_kp.random_kp(rng, nb=nb, box="recip", boxpar=dict(kmax=None, recip_lattice=R))
+
+
+def make_set(model, sup, **extra):
+    """SystemKP with exactly the analytic derivatives of the orders in `sup` supplied (need not be a prefix)"""
+    from wannierberri.system import SystemKP
+    kw = model.system_kwargs(0)
+    for n, key in ((1, "derHam"), (2, "der2Ham"), (3, "der3Ham")):
+        if n in sup:
+            kw[key] = getattr(model, key)
+    kw.update(extra)
+    return SystemKP(**kw)
+
+
+def base_of(n, sup):
+    """order of the analytic function from which the n-th derivative is differenced (documented nesting)"""
+    return max([m for m in sup if m < n] + [0])
+
+
 def stencil_constants(system, model):
     wk = np.asarray(system.wk, dtype=float)
     b = np.asarray(system.bk_cart, dtype=float).reshape(-1, 3)
@@ -92,13 +141,14 @@ def fd_bound(model, n, L, S, W, nb_vec, maxshift=1):
 
 
 # ------------------------------------------------------------------------------------------
-def make_calculators(wb, names, Efermi, omega, tetra, kBT):
+def make_calculators(wb, names, Efermi, omega, tetra, kBT, opts=None):
     calc = wb.calculators
+    opts = opts or {}
     out = {}
     tabs = {}
     for n in names:
         if n in STATIC_BAND + STATIC_GEOM:
-            out[n] = getattr(calc.static, n)(Efermi=Efermi, tetra=tetra)
+            out[n] = getattr(calc.static, n)(Efermi=Efermi, tetra=tetra, **opts.get("static", {}))
         elif n in TAB_BAND + TAB_GEOM:
             tabs[n] = getattr(calc.tabulate, n)()
         else:
@@ -107,7 +157,7 @@ def make_calculators(wb, names, Efermi, omega, tetra, kBT):
                 kw["sc_eta"] = 0.1
             out[n] = getattr(calc.dynamic, n)(**kw)
     if tabs:
-        out["tabulate"] = calc.TabulatorAll(tabs, ibands=None, mode="grid")
+        out["tabulate"] = calc.TabulatorAll(tabs, ibands=opts.get("ibands"), mode=opts.get("tabmode", "grid"))
     return out
 
 
@@ -121,11 +171,22 @@ def extract(result, names):
     return out
 
 
-def do_run(wb, system, names, NKdiv, NKFFT, Efermi, omega, tetra, kBT):
-    grid = wb.Grid(system, NKdiv=NKdiv, NKFFT=NKFFT, use_symmetry=False)
-    calcs = make_calculators(wb, names, Efermi, omega, tetra, kBT)
-    res = wb.run(system, grid=grid, calculators=calcs, parallel=False, adpt_num_iter=0, use_irred_kpt=False,
-                 symmetrize=False, print_progress_step_time=1e9)
+def do_run(wb, system, names, NKdiv, NKFFT, Efermi, omega, tetra, kBT, gspec=None):
+    gspec = gspec or dict(kind="grid")
+    kind = gspec["kind"]
+    sym = bool(gspec.get("symflags", False))
+    if kind == "gridtetra":
+        grid = wb.grid.GridTetra(system, length=gspec["length"], NKFFT=[1, 1, 1], refine_by_volume=False,
+                                 refine_by_size=False)
+    elif kind == "path_klist":
+        grid = wb.Path(system, k_list=gspec["k_list"])
+    elif kind == "path_nodes":
+        grid = wb.Path.from_nodes(system, nodes=gspec["nodes"], nk=gspec["nk"], labels=gspec["labels"])
+    else:
+        grid = wb.Grid(system, NKdiv=NKdiv, NKFFT=NKFFT, use_symmetry=sym)
+    calcs = make_calculators(wb, names, Efermi, omega, tetra, kBT, gspec.get("opts"))
+    res = wb.run(system, grid=grid, calculators=calcs, parallel=False, adpt_num_iter=int(gspec.get("adpt", 0)),
+                 use_irred_kpt=sym, symmetrize=sym, print_progress_step_time=1e9)
     return extract(res, names)
 
 
@@ -134,19 +195,52 @@ def case(ctx, rng, idx, state):
     wb = env.import_wb()
 
     nb = int(rng.integers(1, 5))
-    model = gen_kp.random_kp(rng, nb=nb)
+    # widening classes drawn by idx (every class occurs in every tier); "default" is the original generator
+    mclass = ("default", "sheared", "default", "lefthanded", "argforms", "default", "real_dtype", "param_2d")[idx % 8]
+    extra = {}
+    if mclass in ("sheared", "lefthanded"):
+        model = sheared_model(rng, nb, mclass == "lefthanded")
+    elif mclass == "argforms" and rng.random() < 0.5:
+        # kmax given as a python int
+        model = gen_kp.random_kp(rng, nb=nb, box="kmax", boxpar=dict(kmax=int(rng.integers(1, 4))))
+    else:
+        model = gen_kp.random_kp(rng, nb=nb)
+    if mclass == "real_dtype":
+        model = real_twin(model)
+    if mclass == "argforms":
+        # lattices as nested lists / tuples instead of arrays
+        conv = (lambda a: a.tolist()) if rng.random() < 0.5 else (lambda a: tuple(tuple(float(x) for x in r) for r in a))
+        if model.box == "real":
+            extra["real_lattice"] = conv(model.real_lattice_in)
+        elif model.box != "kmax":
+            extra["recip_lattice"] = conv(model.recip_lattice_in)
+    if mclass == "param_2d":
+        # documented **parameters of System: periodic / name (the derivatives stay three-dimensional)
+        extra.update(periodic=(True, True, False), name="c31kp")
+    ctx.count(f"class_{mclass}")
     wit = model.describe()
     wit["small_box"] = model.small_box
+    wit["model_class"] = mclass
     if model.small_box:
         # domain on which the shell search raised TypeError before 62efcc4b (absolute thresholds)
         ctx.count("small_or_noncubic_box_cases")
     a_part = int(rng.integers(1, 3))
+    sup_a = tuple(range(1, a_part + 1))
+    SUPX = ((2,), (3,), (1, 3), (2, 3))
+    sup_x = SUPX[int(rng.integers(len(SUPX)))]
 
-    sys0 = model.make_system(0)
-    sysa = model.make_system(a_part)
-    sys3 = model.make_system(3)
+    sys0 = model.make_system(0, **extra)
+    sysa = model.make_system(a_part, **extra)
+    sys3 = model.make_system(3, **extra)
+    sysx = make_set(model, sup_x, **extra)
     S, W, nvec, capratio = stencil_constants(sys0, model)
-    wit.update(stencil_vectors=nvec, S_over_cap=capratio[0], W_over_cap=capratio[1], nder_partial=a_part)
+    wit.update(stencil_vectors=nvec, S_over_cap=capratio[0], W_over_cap=capratio[1], nder_partial=a_part,
+               nonprefix_set=sup_x)
+    if mclass in ("sheared", "lefthanded") and max(capratio) > 1:
+        # the a-priori caps were derived for reduced cells; a non-reduced cell whose stencil is legitimately wider
+        # than the caps is not judged (counted)
+        ctx.count("sheared_stencil_above_cap_not_judged")
+        raise harness.Skip("stencil of a non-reduced cell above the a-priori caps")
     ctx.count(f"stencil_{nvec}_vectors")
     bc = np.asarray(sys0.bk_cart, dtype=float).reshape(-1, 3)
     wk = np.asarray(sys0.wk, dtype=float)
@@ -161,41 +255,79 @@ def case(ctx, rng, idx, state):
     nk = 4 if nvec > 12 else 6
     ks = gen_kp.random_k_in_box(rng, nk, margin=0.08, shifts=True)
     ks[0] = gen_kp.random_k_in_box(rng, 1, margin=0.08, shifts=False)[0]
-    actual = [max(np.abs(model.der_red(k, n)).max() for k in ks) for n in range(4)]
-    tols = {}
+    # widening: a point close to the box boundary (all points of the three times nested stencil still inside),
+    # a translation by several reciprocal vectors, and the centre of the box given as a list of python ints
+    reach = 3 * float(np.abs(np.asarray(sys0.bk_red)).max())
+    edge = gen_kp.random_k_in_box(rng, 1, margin=0.08, shifts=False)[0]
+    edge[int(rng.integers(3))] = float(rng.choice([-1, 1])) * (0.5 - 1.5 * reach - 1e-9)
+    far = gen_kp.random_k_in_box(rng, 1, margin=0.08, shifts=False)[0] + rng.integers(-4, 5, 3)
+    kforms = [("array", k) for k in ks] + [("edge", edge), ("far", far)]
+    if reach < 0.1:
+        ctx.count("k_near_box_boundary")
+    else:
+        kforms.pop(-2)
+    kforms.append(("gamma_intlist", [0, 0, 0]))
+    form = int(rng.integers(3))
+    kforms[1] = (("array", "list", "tuple")[form], (kforms[1][1], list(map(float, kforms[1][1])),
+                                                    tuple(map(float, kforms[1][1])))[form])
+    ctx.count(f"k_given_as_{kforms[1][0]}")
+    actual = [max(np.abs(model.der_red(np.asarray(k, dtype=float), n)).max() for _, k in kforms) for n in range(4)]
+    tols, tols_far = {}, {}
     for n in range(1, 4):
-        tols[n, 0] = fd_bound(model, n, n, S, W, nvec)
-        if n > a_part:
-            tols[n, a_part] = fd_bound(model, n, n - a_part, S, W, nvec)
+        for base in range(n):
+            tols[n, base] = fd_bound(model, n, n - base, S, W, nvec)
+            tols_far[n, base] = fd_bound(model, n, n - base, S, W, nvec, maxshift=4)   # only for the far translation
     rel0 = {n: tols[n, 0][0] / actual[n] if actual[n] > 0 else np.inf for n in (1, 2, 3)}
     wit["rel_bound_der123"] = [rel0[1], rel0[2], rel0[3]]
     names_f = ("Ham", "derHam", "der2Ham", "der3Ham")
     checked_orders = set()
-    for k in ks:
+    first_values = {}
+    for kf, k in kforms:
+        kref = np.asarray(k, dtype=float)
+        T = tols_far if kf == "far" else tols
+        kmx3 = float(np.max(model.kcart_max)) * (9 if kf == "far" else 3)
         for n in range(4):
-            ref = model.der_red(k, n)
-            exact_tol = 64 * EPS * (model.bound(n) + float(np.max(model.kcart_max)) * 3 * model.bound(n + 1))
-            for tag, s, a in (("num", sys0, 0), ("partial", sysa, a_part), ("analytic", sys3, 3)):
-                if tag != "num" and nvec > 12 and n == 3 and a < 2:
+            ref = model.der_red(kref, n)
+            exact_tol = 64 * EPS * (model.bound(n) + kmx3 * model.bound(n + 1))
+            for tag, s, sup in (("num", sys0, ()), ("partial", sysa, sup_a), ("analytic", sys3, (1, 2, 3)),
+                                ("nonprefix", sysx, sup_x)):
+                a = base_of(n, sup)
+                supplied = (n == 0 or n in sup)
+                if tag != "num" and nvec > 12 and n == 3 and not supplied and a < 2:
+                    continue  # cost
+                if tag == "nonprefix" and kf not in ("array", "list", "tuple", "edge") and nvec > 8:
                     continue  # cost
                 val = getattr(s, names_f[n])(k)
-                if n <= a:
+                if mclass == "real_dtype":
+                    if np.iscomplexobj(val) and float(np.abs(np.imag(val)).max()) > 0:
+                        ctx.violation("SystemKP.real_Ham_gives_complex_derivative",
+                                      f"{names_f[n]} of a real Hamiltonian has an imaginary part", wit)
+                    ctx.ev(1)
+                if tag == "num" and kf == "array" and n in (1, 2):
+                    first_values.setdefault(n, (k, np.array(val)))
+                if supplied:
                     # the supplied function (or Ham itself) evaluated at the translated k in the right convention
                     ctx.close(f"SystemKP.{names_f[n]}(supplied)!=model", val, ref, atol=exact_tol, rtol=0,
-                              what=f"{names_f[n]} supplied ({tag}) at k={k}", witness=wit)
+                              what=f"{names_f[n]} supplied ({tag}, supplied orders {sup}) at k={k}", witness=wit)
                     herm_tol = exact_tol
+                    if tag == "nonprefix":
+                        ctx.count("nonprefix_supplied_compared")
                 else:
-                    tol, tr, rd = tols[n, a]
+                    tol, tr, rd = T[n, a]
                     if tol > 0.05 * max(actual[n], 1e-300) and actual[n] > 0:
                         ctx.count("bound_too_loose_not_compared")
                         continue
                     ctx.close(f"SystemKP.{names_f[n]}(numerical,from_der{a})!=analytic", val, ref, atol=tol, rtol=0,
-                              what=f"{names_f[n]} numerical from analytic order {a} at k={k} "
-                                   f"(bound: trunc {tr:.2e} round {rd:.2e}, |analytic| {actual[n]:.2e})",
+                              what=f"{names_f[n]} numerical from analytic order {a} ({tag}, supplied orders {sup}) "
+                                   f"at k={k} (bound: trunc {tr:.2e} round {rd:.2e}, |analytic| {actual[n]:.2e})",
                               witness=wit)
                     ctx.count(f"num_der{n}_compared")
+                    if tag == "nonprefix":
+                        ctx.count("nonprefix_numerical_compared")
+                    if kf in ("edge", "far", "gamma_intlist"):
+                        ctx.count(f"num_compared_at_{kf}")
                     checked_orders.add(n)
-                    herm_tol = 4 * tols[n, a][2] + exact_tol
+                    herm_tol = 4 * T[n, a][2] + exact_tol
                 ctx.close(f"SystemKP.{names_f[n]}_not_hermitian", val, np.conj(np.swapaxes(val, 0, 1)),
                           atol=herm_tol, rtol=0, what=f"Hermiticity of {names_f[n]} ({tag})", witness=wit)
     # cartesian wrappers
@@ -207,6 +339,25 @@ def case(ctx, rng, idx, state):
             tol += tols[1, 0][0]
         ctx.close(f"SystemKP.{nm}!=model", getattr(sys0, nm)(kc), model.der_red(k, n), atol=tol, rtol=0,
                   what=f"{nm} at cartesian k", witness=wit)
+    # widening: all four cartesian wrappers, on every kind of system, at a cartesian k outside the box
+    kq = ks[1 + int(rng.integers(len(ks) - 1))]
+    kqc = kq @ model.recip_lattice
+    kmx3 = float(np.max(model.kcart_max)) * 3
+    for tag, s, sup in (("num", sys0, ()), ("partial", sysa, sup_a), ("analytic", sys3, (1, 2, 3)),
+                        ("nonprefix", sysx, sup_x)):
+        for n, nm in enumerate(("Ham_cart", "derHam_cart", "der2Ham_cart", "der3Ham_cart")):
+            supplied = (n == 0 or n in sup)
+            if nvec > 12 and n == 3 and not supplied:
+                continue  # cost
+            tol = 64 * EPS * (model.bound(n) + kmx3 * model.bound(n + 1))
+            if not supplied:
+                t = tols[n, base_of(n, sup)][0]
+                if t > 0.05 * max(actual[n], 1e-300):
+                    continue
+                tol += t
+            ctx.close(f"SystemKP.{nm}!=model", getattr(s, nm)(kqc), model.der_red(kq, n), atol=tol, rtol=0,
+                      what=f"{nm} ({tag}) at cartesian k = {kqc} (reduced {kq})", witness=wit)
+            ctx.count("cart_wrapper_all_orders")
 
     # ---------------- DIFF: run() with numerical vs analytic derivatives
     ctx.count(f"convention_{model.convention}")
@@ -221,7 +372,7 @@ def case(ctx, rng, idx, state):
         if checked_orders:
             ctx.nontrivial(("sparse", nb, model.degree, model.convention, model.box, nvec))
         return
-    geom_ok = nb >= 2
+    geom_ok = nb >= 2 and mclass != "real_dtype"   # a real H(k) has vanishing Berry curvature / orbital moment
     pool_s = STATIC_BAND + (STATIC_GEOM if geom_ok else [])
     pool_t = TAB_BAND + (TAB_GEOM if geom_ok else [])
     pool_d = DYN_BAND + (DYN_GEOM if geom_ok else [])
@@ -230,10 +381,21 @@ def case(ctx, rng, idx, state):
     names += list(rng.choice(pool_t, size=min(len(pool_t), 3), replace=False))
     names += list(rng.choice(pool_d, size=min(len(pool_d), 2), replace=False))
     names = [str(n) for n in names]
+    # widening: kind of k-point set handed to run()
+    # (adaptive refinement is not drawn: which K-points get refined is an argmax over results that differ by the
+    #  finite-difference error, a discontinuous stage without an accessible tie guard - observed to flip for nb=1)
+    gkind = str(rng.choice(["grid", "grid_aniso", "gridtetra", "path_klist", "path_nodes"],
+                           p=[0.4, 0.18, 0.14, 0.14, 0.14]))
+    ctx.count(f"gridkind_{gkind}")
     # odd number of grid points per direction; cost of the nested differences limits the grid
     budget = 6.0e4 if not ctx.thorough else 2.5e5
     while True:
-        NK = rng.choice([1, 3, 5], size=3, p=[0.15, 0.6, 0.25])
+        if gkind == "grid_aniso":
+            NK = rng.permutation([[15, 1, 1], [9, 1, 1], [7, 3, 1], [5, 3, 1], [11, 1, 1], [21, 1, 1]][int(rng.integers(6))])
+        else:
+            NK = rng.choice([1, 3, 5], size=3, p=[0.15, 0.6, 0.25])
+        if mclass == "param_2d":
+            NK[2] = 1
         if np.prod(NK) == 1:
             continue
         if np.prod(NK) * nvec ** 3 <= budget or np.prod(NK) <= 9:
@@ -241,7 +403,40 @@ def case(ctx, rng, idx, state):
     split = rng.random(3) < 0.5
     NKdiv = np.where(split, NK, 1)
     NKFFT = np.where(split, 1, NK)
-    if np.prod(NK) * nvec ** 3 > budget:
+    gspec = dict(kind=gkind, symflags=bool(rng.random() < 0.3), opts={})
+    npts = int(np.prod(NK))
+    if gkind == "refine":
+        NKdiv, NKFFT = np.array(NK), np.array([1, 1, 1])
+        gspec["adpt"] = int(rng.integers(1, 3))
+        npts = npts + 8 * 2 * gspec["adpt"]
+    elif gkind == "gridtetra":
+        gspec["length"] = float(rng.uniform(0.5, 3.0))
+        gspec["adpt"] = 0
+        npts = 5
+    elif gkind == "path_klist":
+        npts = int(rng.integers(1, 8))
+        kl = gen_kp.random_k_in_box(rng, npts, margin=0.05, shifts=True)
+        gspec["k_list"] = kl if rng.random() < 0.5 else kl.tolist()
+    elif gkind == "path_nodes":
+        nd = gen_kp.random_k_in_box(rng, 4, margin=0.05, shifts=False)
+        nd[1] += rng.integers(-1, 2, 3)      # a segment that leaves the box (its points are translated back)
+        gspec["nodes"] = [list(nd[0]), list(nd[1]), None, list(nd[2]), list(nd[3])]
+        gspec["nk"] = [int(rng.integers(2, 5)), int(rng.integers(2, 5))]
+        gspec["labels"] = ["A", "B", "C", "D"]
+        npts = sum(gspec["nk"]) + 2
+        # no point of a segment may fall on a box boundary (discontinuity of a k.p model): generic nodes, checked below
+    if gkind.startswith("path"):
+        names = [n for n in names if n in TAB_BAND + TAB_GEOM]
+        gspec["opts"]["tabmode"] = "path"
+    elif gkind in ("gridtetra", "refine"):
+        names = [n for n in names if n in STATIC_BAND + STATIC_GEOM]
+    if gkind in ("grid", "grid_aniso", "path_klist", "path_nodes") and nb >= 2 and rng.random() < 0.4:
+        gspec["opts"]["ibands"] = sorted(int(i) for i in rng.choice(nb, size=int(rng.integers(1, nb)), replace=False))
+        ctx.count("tabulator_ibands_subset")
+    if rng.random() < 0.3:
+        gspec["opts"]["static"] = dict(degen_thresh=float(rng.choice([1e-3, 0.05, 0.3])))
+        ctx.count("static_degen_thresh_option")
+    if npts * nvec ** 3 > budget:
         # far-shell stencils (24-48 vectors): third derivatives are too expensive, drop what needs them
         names = [n for n in names if state["orders"].get(n, 3) < 3 and n not in
                  ("Der3E", "Der2BerryCurvature", "Der2OrbitalMoment", "NLDrude_FermiSea", "NLDrude_FermiSurf",
@@ -253,9 +448,14 @@ def case(ctx, rng, idx, state):
     E = np.array([np.linalg.eigvalsh(model.H_red(q)) for q in kk])
     Efermi = np.linspace(E.min() + 0.05 * np.ptp(E), E.max() - 0.05 * np.ptp(E), 7) + rng.uniform(-1e-3, 1e-3)
     omega = np.linspace(0.05, 1.0, 4) * max(np.ptp(E), 0.1)
-    tetra = bool(rng.random() < 0.4)
+    tetra = bool(rng.random() < 0.4) or gkind == "gridtetra"
     kBT = float(rng.choice([0.0, 0.05]))
-    wit.update(NKdiv=NKdiv, NKFFT=NKFFT, tetra=tetra, calculators=names)
+    wit.update(NKdiv=NKdiv, NKFFT=NKFFT, tetra=tetra, calculators=names, gridspec=gspec)
+    if not names:
+        ctx.count("run_part_no_calculator_left")
+        if checked_orders:
+            ctx.nontrivial(("norun", nb, model.degree, model.convention, model.box, nvec, mclass))
+        return
 
     # derivative orders each calculator asks for: measured in situ on the analytic system, once per shard
     for n in names:
@@ -263,45 +463,81 @@ def case(ctx, rng, idx, state):
             cnt = Counting(model)
             s = cnt.system(3)
             cnt.calls = [0, 0, 0, 0]
-            do_run(wb, s, [n], [1, 1, 1], [3, 1, 1], Efermi, omega, tetra, kBT)
+            do_run(wb, s, [n], [1, 1, 1], [3, 1, 1], Efermi, omega, tetra and gkind != "gridtetra", kBT)
             state["orders"][n] = max([o for o in (1, 2, 3) if cnt.calls[o] > 0], default=0)
             if cnt.calls[0] == 0:
                 raise RuntimeError("Ham was never called: the counting wrapper is not in the path")
     cnt_num = Counting(model)
-    s_num = cnt_num.system(0)
-    s_par = model.make_system(a_part)
+    s_num = cnt_num.system(0, **extra)
+    # third configuration: a prefix of analytic derivatives, or (widening) a non-prefix set
+    sup_run = sup_a if rng.random() < 0.5 else sup_x
+    s_par = make_set(model, sup_run, **extra)
     cnt_num.calls = [0, 0, 0, 0]
-    r_an = do_run(wb, sys3, names, NKdiv, NKFFT, Efermi, omega, tetra, kBT)
-    r_num = do_run(wb, s_num, names, NKdiv, NKFFT, Efermi, omega, tetra, kBT)
-    r_par = do_run(wb, s_par, names, NKdiv, NKFFT, Efermi, omega, tetra, kBT)
+    r_an = do_run(wb, sys3, names, NKdiv, NKFFT, Efermi, omega, tetra, kBT, gspec)
+    r_num = do_run(wb, s_num, names, NKdiv, NKFFT, Efermi, omega, tetra, kBT, gspec)
+    r_par = do_run(wb, s_par, names, NKdiv, NKFFT, Efermi, omega, tetra, kBT, gspec)
     if cnt_num.calls[0] == 0 or any(cnt_num.calls[1:]):
         raise RuntimeError("numerical system did not go through Ham only")
     ctx.count("run_pairs")
     K = 30.0
-    for n in names:
-        order = state["orders"][n]
-        a, b, c = r_an[n], r_num[n], r_par[n]
-        scale = float(np.abs(a).max())
-        for tag, other, base in (("Ham_only", b, 0), (f"Ham+{a_part}der", c, a_part)):
-            used = [o for o in range(base + 1, order + 1)]
+
+    def judge(r_ref, r_other, tag, sup, nms, label=""):
+        for n in nms:
+            order = state["orders"][n]
+            a, other = r_ref[n], r_other[n]
+            scale = float(np.abs(a).max())
+            if label:
+                # the second request uses a one-line grid on which a result can vanish by structure (observed: Morb
+                # 5e-16): the scale is the larger of this result and the result of the generic first request
+                scale = max(scale, float(np.abs(r_an[n]).max()))
+            used = [o for o in range(1, order + 1) if o not in sup]
             if not used:
                 rt = 1e-11
             else:
-                rt = K * sum(tols[o, base][0] / actual[o] if actual[o] > 0 else np.inf for o in used) + 1e-11
+                rt = K * sum(tols[o, base_of(o, sup)][0] / actual[o] if actual[o] > 0 else np.inf for o in used) + 1e-11
             if not np.isfinite(rt) or rt > 0.03:
                 ctx.count("run_bound_too_loose_not_compared")
                 continue
             if scale == 0 and float(np.abs(other).max()) == 0:
                 ctx.count("run_result_identically_zero")
                 continue
+            if a.shape != other.shape:
+                ctx.violation(f"run({tag})!=run(analytic)", f"calculator {n}: shapes {other.shape} vs {a.shape}", wit)
+                continue
             ctx.close(f"run({tag})!=run(analytic)", other, a, atol=rt * scale, rtol=0,
-                      what=f"calculator {n} (uses derivatives up to {order}) {tag} vs all analytic, "
+                      what=f"calculator {n} (uses derivatives up to {order}) {tag}{label} vs all analytic, "
                            f"relative bound {rt:.2e}, max|result| {scale:.3e}", witness=wit)
             ctx.count(f"run_compared_order{order}")
             ctx.count(f"calc_{n}")
+            ctx.count(f"run_compared_{gkind}" if not label else "run_compared_reused_system")
+            if tag.startswith("Ham+set"):
+                ctx.count("run_compared_nonprefix_set")
+
+    judge(r_an, r_num, "Ham_only", (), names)
+    if sup_run == sup_a:
+        judge(r_an, r_par, f"Ham+{a_part}der", sup_run, names)
+    else:
+        judge(r_an, r_par, "Ham+set" + "".join(str(o) for o in sup_run), sup_run, names)
+
+    # widening: the systems are used again - a second request with another Fermi array / grid on the *same* objects,
+    # and the derivative functions evaluated after run() must return what they returned before
+    names2 = [n for n in names if n in STATIC_BAND + STATIC_GEOM + TAB_BAND + TAB_GEOM][:3]
+    if names2 and nvec <= 12:
+        Ef2 = Efermi[1:-1] + 0.013 * np.ptp(E)
+        NK2 = np.array([3, 1, 1])[rng.permutation(3)]
+        if mclass == "param_2d":
+            NK2 = np.array([3, 1, 1])
+        r_an2 = do_run(wb, sys3, names2, NK2, [1, 1, 1], Ef2, omega, False, kBT)
+        r_num2 = do_run(wb, s_num, names2, NK2, [1, 1, 1], Ef2, omega, False, kBT)
+        judge(r_an2, r_num2, "Ham_only", (), names2, label=" (second request on the same system)")
+    for n, (k1, v1) in first_values.items():
+        v2 = getattr(sys0, names_f[n])(k1)
+        ctx.close(f"SystemKP.{names_f[n]}_changed_on_second_call", v2, v1, atol=0, rtol=0,
+                  what=f"{names_f[n]} at the same k after run() and other requests", witness=wit)
+        ctx.count("derivative_reevaluated_after_use")
     if checked_orders >= {1, 2, 3}:
         ctx.nontrivial((nb, model.degree, model.convention, model.box, model.ntrig > 0, nvec,
-                        tuple(int(x) for x in NK), tetra, round(math.log10(model.finite_diff_dk))))
+                        tuple(int(x) for x in NK), tetra, round(math.log10(model.finite_diff_dk)), mclass, gkind))
     ctx.sample(wit)
 
 
@@ -313,7 +549,13 @@ if __name__ == "__main__":
              "bands, box given by kmax (0.02-5) / diagonal, tetragonal, hexagonal, fcc, bcc, triclinic recip_lattice / "
              "triclinic real_lattice (reciprocal vectors 0.2-8 1/A), "
              "cartesian or reduced argument convention, finite_diff_dk 3e-5..2e-3; SystemKP with 0, 1-2 and 3 analytic "
-             "derivatives; a case counts as non-trivial when all of der1, der2, der3 were compared with a bound below "
+             "derivatives and with a non-prefix set of them (der2 / der3 / der1+3 / der2+3); classes by case index: "
+             "non-reduced (unimodular combination, entries up to 3) and left-handed cells, lattices as lists / tuples and "
+             "integer kmax, real-dtype Hamiltonians, periodic=(T,T,F)+name; k-points as array / list / tuple, next to the "
+             "box boundary, translated by up to 4 reciprocal vectors, Gamma as integer list; all four *_cart wrappers; "
+             "run() on Grid (also 21x1x1-like anisotropic, use_symmetry / use_irred_kpt / symmetrize on), GridTetra, Path "
+             "(k_list and from_nodes), TabulatorAll with ibands subsets, degen_thresh option, second request on the same "
+             "system objects; a case counts as non-trivial when all of der1, der2, der3 were compared with a bound below "
              "5% of the analytic magnitude; distinct by (bands, degree, convention, box, trig, stencil size, grid, "
              "tetra, log10 dk)",
         assumptions=["analytic derivatives from explicit differentiation of the coefficient table (vlib/gen_kp.py)",
@@ -325,5 +567,11 @@ if __name__ == "__main__":
                      "at least 0.08 (reduced) away from the box boundary"],
         required_counters=("small_or_noncubic_box_cases", "num_der1_compared", "num_der2_compared", "num_der3_compared", "run_pairs",
                            "run_compared_order1", "run_compared_order2", "run_compared_order3",
-                           "noncubic_boxes", "convention_cart", "convention_red"),
+                           "noncubic_boxes", "convention_cart", "convention_red",
+                           # widening review: classes that decide something
+                           "nonprefix_supplied_compared", "nonprefix_numerical_compared", "cart_wrapper_all_orders",
+                           "num_compared_at_edge", "num_compared_at_far", "num_compared_at_gamma_intlist",
+                           "class_sheared", "class_lefthanded", "class_argforms", "class_real_dtype", "class_param_2d",
+                           "run_compared_reused_system", "derivative_reevaluated_after_use",
+                           "run_compared_nonprefix_set"),
     )
